@@ -139,6 +139,10 @@ def seq_len(I, v):
         return VInt(v.length)
     if isinstance(v, VStr):
         return VInt(z3.Length(v.t))
+    if isinstance(v, VAny):
+        lf = z3.Function('len_f', PyVal, z3.IntSort())
+        I.ex.ctx.add(lf(v.t) >= 0)
+        return VInt(z3.If(PyVal.is_PS(v.t), z3.Length(PyVal.s(v.t)), lf(v.t)))
     if isinstance(v, VObj):
         ln = None
         for k in v.pycls.__mro__:
@@ -613,6 +617,10 @@ def call_kind(I, f, args, kwargs):
                 I.raise_(ValueError)
             return VInt(val(a.t))
         t = to_pyval(a)
+        # int(float) is partial: nan raises ValueError, +-inf raises OverflowError
+        nonfinite = z3.Function('nonfinite', PyVal, z3.BoolSort())
+        if I.ex.choose(z3.And(PyVal.is_PF(t), nonfinite(t))):
+            I.raise_(ValueError)
         return VInt(z3.If(int_like(t), int_of(t), toint(t)))
     if ck == 'float':
         if isinstance(a, VStr):
@@ -746,7 +754,10 @@ def str_method(I, s, m, args, kwargs):
         key = (m, len(args))
         if key not in _strfun:
             _strfun[key] = z3.Function(f'str_{m}{len(args)}', *([z3.StringSort()] * (1 + len(args))), z3.StringSort())
-        return VStr(_strfun[key](s.t, *[a.t for a in args]))
+        r = _strfun[key](s.t, *[a.t for a in args])
+        if m in ('strip', 'lstrip', 'rstrip'):
+            I.ex.ctx.add(z3.And(z3.Length(r) <= z3.Length(s.t), z3.Implies(z3.Length(s.t) == 0, r == s.t)))
+        return VStr(r)
     if m in ('isdigit', 'isidentifier', 'isalpha', 'isalnum', 'isspace'):
         key = (m, 0)
         if key not in _strfun:
